@@ -215,6 +215,9 @@ pub struct EioCase {
 	pub sc: Scenario,
 	pub fail_after: u16,
 	pub pauses_us: Vec<u16>,
+	/// only `write` fails, with ENOSPC (full disk): syncs, truncation and mapped stores work
+	#[serde(default)]
+	pub writes_only: bool,
 }
 
 fn eio_case() -> impl Strategy<Value = EioCase> {
@@ -232,7 +235,7 @@ fn eio_case_plain() -> impl Strategy<Value = EioCase> {
 	(mixed_cfg(2, false), prop_oneof![2 => 0u16..40, 3 => 40u16..400, 1 => 400u16..2000], proptest::collection::vec(prop_oneof![2 => Just(0u16), 2 => 1u16..500, 1 => 500u16..3000], 1..5), 0u8..3).prop_flat_map(
 		|(mut cfg, fail_after, pauses_us, af)| {
 			cfg.always_flush = af > 0;
-			proptest::collection::vec(mixed_items(&cfg, 12, 20_000, 5, 0).prop_map(Op::Commit), 8..40).prop_map(move |ops| EioCase { sc: Scenario { cfg: cfg.clone(), ops }, fail_after, pauses_us: pauses_us.clone() })
+			proptest::collection::vec(mixed_items(&cfg, 12, 20_000, 5, 0).prop_map(Op::Commit), 8..40).prop_map(move |ops| EioCase { sc: Scenario { cfg: cfg.clone(), ops }, fail_after: if fail_after % 3 == 0 { fail_after / 8 } else { fail_after }, pauses_us: pauses_us.clone(), writes_only: fail_after % 3 == 0 })
 		},
 	)
 }
@@ -259,6 +262,7 @@ pub fn run_eio_case(case: &EioCase, dir: &Path) -> CaseResult {
 		it.open()?;
 		it.fault_armed = true;
 		iotrack::eio_arm(&work, case.fail_after as i64);
+		iotrack::EIO_WRITES_ONLY.store(case.writes_only, std::sync::atomic::Ordering::SeqCst);
 		let mut refused_at: Option<usize> = None;
 		let mut accepted_after_refusal = None;
 		let mut i = 0usize;
@@ -389,7 +393,7 @@ pub fn run_eio_case(case: &EioCase, dir: &Path) -> CaseResult {
 	if refused_at != usize::MAX {
 		out.label("commit-refused");
 	}
-	out.label("real-worker-threads-eio");
+	out.label(if case.writes_only { "enospc-on-write-only" } else { "real-worker-threads-eio" });
 	out.nontrivial = failed_calls > 0;
 	Ok(out)
 }
